@@ -966,6 +966,7 @@ class Generator:
         expression = self.preprocess(expression)
 
         self.unsupported_messages = []
+        self._next_name = name_sequence("_t")
         sql = self.sql(expression).strip()
 
         if self.pretty:
